@@ -91,7 +91,8 @@ def run(ctx: Ctx):
     # unbounded part: process() on a parser object in an ARBITRARY earlier state returns the declarations of the loaded
     # document only (well-formed documents of any size / nesting; parse_element by the contract proved under C05)
     from props import parse_unbounded
-    parse_unbounded.run_documents(ctx, parts=('process',))
+    from props.gen_unbounded import guarded
+    guarded(ctx, 'process', parse_unbounded.run_documents, parts=('process',))
     jobs = list(D.documents().items())
     status, msg = parallel_jobs(ctx, jobs, lambda sub, j: check_doc(sub, j[0], j[1]), lambda j: j[0])
     if status == 'crash':
